@@ -157,7 +157,13 @@ def equivalence_job(k, ground_only=False):
     bad = []
     with warnings.catch_warnings():
         warnings.simplefilter("ignore")
-        got, uni, toc = run_multi(surface, tail, height)
+        try:
+            got, uni, toc = run_multi(surface, tail, height)
+        except RuntimeError as e:
+            if "failed to find any matches" in str(e) and "AeroPoint" in str(e):
+                # an input the point must offer for this option combination (height_agl with a ground plane) does not exist
+                return {"k": k, "bad": [("multisec:interface:point_input_missing", {"error": str(e)[:200]})], "case": {"kind": "multisec_vs_plain", "ground": ground, "tail": with_tail}}
+            raise
         want = run_plain(surface, uni, toc, tail, height)
     for kk in want:
         if got[kk].shape != want[kk].shape or not np.all(np.isfinite(got[kk])):
